@@ -436,14 +436,27 @@ fn giant_cases(ctx: &mut Ctx) {
         ];
         for (desc, job) in jobs {
             ctx.risky(&desc);
-            let h = std::thread::Builder::new().spawn(move || std::panic::catch_unwind(std::panic::AssertUnwindSafe(job)).is_ok());
-            let ok = h.map(|h| h.join().unwrap_or(false)).unwrap_or(false);
+            // on the same thread, right after the giant call: the purity canaries (canary.rs)
+            let base = ctx.canary_base.clone();
+            let h = std::thread::Builder::new().spawn(move || {
+                let ok = std::panic::catch_unwind(std::panic::AssertUnwindSafe(job)).is_ok();
+                (ok, crate::canary::differs(&base))
+            });
+            let (ok, diff) = h.map(|h| h.join().unwrap_or((false, None))).unwrap_or((false, None));
             ctx.risky_done();
             ctx.count("giant_input_cases");
             if !ok {
                 ctx.fail("returns normally (no panic)", format!("{} panicked", desc), None);
             } else {
                 ctx.oracle_ok();
+            }
+            if let Some((call, now, fresh)) = diff {
+                let short = |s: &str| if s.len() > 400 { format!("{}…", s.chars().take(400).collect::<String>()) } else { s.to_string() };
+                ctx.fail(
+                    "a call returns what the same call returns on a fresh thread (no state is carried from one call to the next)",
+                    format!("on one thread, after {}: {} = {}, but {} on a fresh thread", desc, call, short(&now), short(&fresh)),
+                    None,
+                );
             }
         }
     }
